@@ -18,4 +18,5 @@ theorem transcOK_real : Surf.TranscOK ℝ where
   sqrt_pos := fun _ h => Real.sqrt_pos.2 h
   tan_atan := fun x => Real.tan_arctan x
   pi_ne := Real.pi_ne_zero
+  cos_sin := fun x => by have := Real.cos_sq_add_sin_sq x; rw [pow_two, pow_two] at this; exact this
 end T4V
